@@ -182,27 +182,32 @@ struct HarnessCell {
     new: AttributedChar,
 }
 
+/// write a cell straight into the row storage: the harness operation must be an exact inverse of itself whatever the
+/// layer's edit guards (locked, hidden, alpha lock) say
+fn raw_set(st: &mut EditState, layer: usize, pos: Position, ch: AttributedChar) -> EngineResult<()> {
+    match st.get_buffer_mut().layers.get_mut(layer) {
+        Some(l) => {
+            if pos.x >= 0 && pos.y >= 0 && pos.x < l.get_width() && pos.y < l.get_height() {
+                if l.lines.len() <= pos.y as usize {
+                    l.lines.resize(pos.y as usize + 1, icy_engine::Line::new());
+                }
+                l.lines[pos.y as usize].set_char(pos.x, ch);
+            }
+            Ok(())
+        }
+        None => fail("harness cell: no such layer"),
+    }
+}
+
 impl UndoOperation for HarnessCell {
     fn get_description(&self) -> String {
         "harness cell".into()
     }
     fn undo(&mut self, st: &mut EditState) -> EngineResult<()> {
-        match st.get_buffer_mut().layers.get_mut(self.layer) {
-            Some(l) => {
-                l.set_char(self.pos, self.new);
-                Ok(())
-            }
-            None => fail("harness cell: no such layer"),
-        }
+        raw_set(st, self.layer, self.pos, self.new)
     }
     fn redo(&mut self, st: &mut EditState) -> EngineResult<()> {
-        match st.get_buffer_mut().layers.get_mut(self.layer) {
-            Some(l) => {
-                l.set_char(self.pos, self.old);
-                Ok(())
-            }
-            None => fail("harness cell: no such layer"),
-        }
+        raw_set(st, self.layer, self.pos, self.old)
     }
 }
 
